@@ -83,7 +83,7 @@ func genC10(cs *CaseSet, rng *Rng, tier string, dir string) {
 	for i := range all {
 		all[i] = 255
 	}
-	names := []string{"alpha", "beta.txt", "Gamma Folder", "d", "e e.sit", "zeta", "Readme", "m.mov", "x.y.z", "00", "~tilde", "UPPER"}
+	names := []string{"alpha", "beta.txt", "Gamma Folder", "d", "e e.sit", "zeta", "Readme", "m.mov", "x.y.z", "00", "~tilde", "UPPER", "movie.bin.incomplete", "half.incomplete"}
 	for h := 0; h < nHist; h++ {
 		env := NewEnv(fmt.Sprintf("%s-%d", dir, h), EnvOpts{})
 		env.StartDrain()
